@@ -386,6 +386,15 @@ func Run(c *core.Ctx) {
 			if e.cons != 0 {
 				args = append(args, bfgs.Constraints{Value: e.predicate})
 			}
+			if t.Bool(1, 3) {
+				// an initial approximation of the Hessian handed in by the caller
+				sc := []float64{0.5, 1, 4}[t.Choose(3)]
+				h0 := ad.NullDenseFloat64Matrix(n, n)
+				for i := 0; i < n; i++ {
+					h0.At(i, i).SetFloat64(sc * float64(i+1))
+				}
+				args = append(args, bfgs.Hessian{Value: h0})
+			}
 			xr, err = bfgs.Run(e.objective, x0, args...)
 		case "rprop":
 			args := []interface{}{rprop.Epsilon{Value: eps}, rprop.MaxIterations{Value: K},
